@@ -183,6 +183,14 @@ def bmc_run(pid, run, work, log):
     ll = os.path.join(work, run.name + '.ll'); cgen = os.path.join(work, run.name + '.gen.c')
     flags = ['-std=' + run.std, '-fgnuc-version=10.0.0', '-O1', '-fno-exceptions', '-fno-rtti', '-fno-vectorize', '-fno-slp-vectorize', '-fno-unroll-loops', '-I' + REPO + '/include', '-S', '-emit-llvm', '-Wno-everything']
     r = sh([CLANG] + flags + [ksrc, '-o', ll])
+    if r.returncode != 0 and 'exceptions disabled' in r.stderr:
+        # the code the kernel wraps uses try / catch / throw on this tree: the IR->C translator has no exception support, so the CBMC cross-check is
+        # not applicable here (fail closed for the cross-check only, never a VIOLATION); the E-sym runs lower with exceptions and decide the property
+        res['notes'] = ['E-BMC-CROSS-CHECK-SKIPPED: %s does not lower with -fno-exceptions on this tree (the wrapped library code uses try/catch); the CBMC cross-check is not applied, the E-sym runs of this property decide it' % run.harness]
+        res['lowering'] = {'cmd': ' '.join([CLANG] + flags), 'ir_lines': 0, 'secs': round(time.time() - t0, 2)}
+        res['tot'] = {'paths': 0, 'steps': 0, 'forks': 0, 'queries': 0, 'qtime': 0, 'wall': time.time() - t0, 'nviol': 0, 'cover_wit': {}, 'samples': [], 'fcalls': {}, 'inconclusive': [],
+                      'max_steps_seen': 0, 'ended': 0, 'pruned': 0, 'sched_points': 0, 'max_threads': 1, 'cache_hits': 0, 'deadlocks': 0, 'violations': []}
+        return res
     if r.returncode != 0: raise RuntimeError('lowering kernel failed:\n' + r.stderr[-2000:])
     m = irparse.parse_module(open(ll).read())
     open(cgen, 'w').write(ir2c.Emitter(m, {'nsw': True, 'exc': False}).emit())
